@@ -73,6 +73,7 @@ typedef struct hx_script {
     int nfault; int fault[2];       /* the k-th allocation made inside libhtp fails (1-based)        */
     int light;                      /* 1: no per-tx records (long steady-state runs)                 */
     int repeat;                     /* run the op list this many times (0/1 = once)                   */
+    int steady_period;              /* light mode: live heap at the n-th TRANSACTION_COMPLETE is compared with the (n - period)-th (0/1: with the 4th) */
     int want_canon;                 /* compute hx_obs.canon before teardown                          */
     const char *label;              /* free text carried into replay files                          */
     void (*inspect)(htp_connp_t *c, struct hx_obs *o, void *ctx);   /* called before teardown (hx_cur still set) */
